@@ -1,3 +1,17 @@
-import GenlmModel.Model.Basic
+import Batteries.Tactic.Alias
+import GenlmModel.Proofs.Zn
+import GenlmModel.Proofs.Norm
+/-! # C08 — total weights are the least solution of the grammar equations -/
 namespace Genlm.Props.C08
+/-- the driver's table is the Kleene iterate `ZN` -/
+alias oracle_table_is_ZN := Genlm.ZNtab_spec
+alias oracle_stable_is_limit := Genlm.ZN_stable_of_tab
+/-- the Kleene chain increases in the algebraic pre-order: its supremum is the least solution -/
+alias kleene_chain_increasing := Genlm.ZN_mono_le
+/-- total weight = derivation sum with the string forgotten -/
+alias total_is_forgetful_derivation_sum := Genlm.ZN_forget
+/-- `_bottom_up_step` iterated n times is `ZN n` -/
+alias naive_bottom_up_iterates := Genlm.bottom_up_step_is_ZN
+/-- Expectation semiring: second component = length-weighted derivation sum, per string -/
+alias expectation_lifting := Genlm.expectation_lifting
 end Genlm.Props.C08
